@@ -18,7 +18,8 @@ from .utils import EventHandler, to_str
 
 # Override defaults for msgpack packb/unpackb
 packb = functools.partial(msgpack.packb, use_bin_type=True, unicode_errors="surrogateescape")
-unpackb = functools.partial(msgpack.unpackb, raw=False, unicode_errors="surrogateescape")
+# strict_map_key=False: the packer writes dicts (dictlist, dynamic) with any key msgpack can pack, so the reader has to take them back
+unpackb = functools.partial(msgpack.unpackb, raw=False, unicode_errors="surrogateescape", strict_map_key=False)
 
 RECORD_PACK_EXT_TYPE = 0xE
 
